@@ -264,8 +264,8 @@ func RunMixed(name string, upstream bool, clients, perClient int, seed uint64) *
 	for l, v := range m.Series(ns + "_http_requests_total") {
 		o.Total[LabelValue(l, "code")+"|"+LabelValue(l, "method")] += v
 	}
-	o.LAct, o.LTot = m.Sum(ns+"_listener_cx_active"), m.Sum(ns+"_listener_cx_total")
-	o.DAct = m.Sum(ns + "_dialer_cx_active")
+	o.LAct, o.LTot = m.AbsSum(ns+"_listener_cx_active"), m.Sum(ns+"_listener_cx_total")
+	o.DAct = m.AbsSum(ns + "_dialer_cx_active")
 	rig.Close()
 	return o
 }
